@@ -187,6 +187,7 @@ class OMap:
         self.val_type = val_type
         self.lookups = []  # [(key, result)] in program order, for specifications
         self.tests = []  # [(key, Bool)] membership tests, so that d[k] after `k in d` does not raise
+        self.all_tests = []  # the same, never cleared by a store (for specifications: what the code asked, in order)
 
 
 class UMap:
